@@ -629,6 +629,120 @@ fn weighted_file<'a>(r: &mut Rng, full: &[(&'static str, &'a str)], len: usize, 
     v
 }
 
+fn real_decoder_routing(out: &mut Out) {
+    use rosu_map::section::{
+        colors::Colors, difficulty::Difficulty, editor::Editor, events::Events, general::General, hit_objects::HitObjects,
+        metadata::Metadata, timing_points::TimingPoints,
+    };
+    use rosu_map::Beatmap;
+    let decos = ["", " ", "  ", "_", "__", "\t", " \t", "\u{3000}", "\u{a0}", "_ ", " _"];
+    let tails = ["", " ", "\t", "  // c"];
+    for d in decos {
+        for tl in tails {
+            out.count("real_decoders.decorated_record");
+            let mk = |sec: &str, rec: &str| format!("osu file format v14\n\n[{sec}]\n{d}{rec}{tl}\n");
+            let chk = |out: &mut Out, what: &str, text: &str, got: String, want: String| {
+                out.oracle_checks += 1;
+                if got != want {
+                    out.fail("", &format!("{what} {text:?}"), &format!("decoded {got}, the section parser on that line gives {want}"));
+                }
+            };
+            // Metadata
+            let line = format!("{d}Title: x y{tl}");
+            let mut st = Metadata::default();
+            let _ = Metadata::parse_metadata(&mut st, &line);
+            let text = mk("Metadata", "Title: x y");
+            if let Ok(Ok(m)) = guarded(|| rosu_map::from_str::<Beatmap>(&text)) {
+                chk(out, "Beatmap", &text, format!("{:?}", m.title), format!("{:?}", st.title));
+            }
+            if let Ok(Ok(m)) = guarded(|| rosu_map::from_str::<Metadata>(&text)) {
+                chk(out, "Metadata", &text, format!("{:?}", m.title), format!("{:?}", st.title));
+            }
+            // General
+            let line = format!("{d}Mode: 2{tl}");
+            let mut st = General::default();
+            let _ = General::parse_general(&mut st, &line);
+            let text = mk("General", "Mode: 2");
+            if let Ok(Ok(m)) = guarded(|| rosu_map::from_str::<Beatmap>(&text)) {
+                chk(out, "Beatmap", &text, format!("{:?}", m.mode), format!("{:?}", st.mode));
+            }
+            if let Ok(Ok(m)) = guarded(|| rosu_map::from_str::<General>(&text)) {
+                chk(out, "General", &text, format!("{:?}", m.mode), format!("{:?}", st.mode));
+            }
+            // Editor
+            let line = format!("{d}GridSize: 16{tl}");
+            let mut st = Editor::default();
+            let _ = Editor::parse_editor(&mut st, &line);
+            let text = mk("Editor", "GridSize: 16");
+            if let Ok(Ok(m)) = guarded(|| rosu_map::from_str::<Beatmap>(&text)) {
+                chk(out, "Beatmap", &text, format!("{:?}", m.grid_size), format!("{:?}", st.grid_size));
+            }
+            if let Ok(Ok(m)) = guarded(|| rosu_map::from_str::<Editor>(&text)) {
+                chk(out, "Editor", &text, format!("{:?}", m.grid_size), format!("{:?}", st.grid_size));
+            }
+            // Difficulty
+            let line = format!("{d}CircleSize: 3{tl}");
+            let mut st = <rosu_map::section::difficulty::DifficultyState as DecodeState>::create(14);
+            let _ = Difficulty::parse_difficulty(&mut st, &line);
+            let st = st.difficulty;
+            let text = mk("Difficulty", "CircleSize: 3");
+            if let Ok(Ok(m)) = guarded(|| rosu_map::from_str::<Beatmap>(&text)) {
+                chk(out, "Beatmap", &text, format!("{:?}", m.circle_size), format!("{:?}", st.circle_size));
+            }
+            if let Ok(Ok(m)) = guarded(|| rosu_map::from_str::<Difficulty>(&text)) {
+                chk(out, "Difficulty", &text, format!("{:?}", m.circle_size), format!("{:?}", st.circle_size));
+            }
+            // Colours
+            let line = format!("{d}Combo1 : 1,2,3{tl}");
+            let mut st = Colors::default();
+            let _ = Colors::parse_colors(&mut st, &line);
+            let text = mk("Colours", "Combo1 : 1,2,3");
+            if let Ok(Ok(m)) = guarded(|| rosu_map::from_str::<Beatmap>(&text)) {
+                chk(out, "Beatmap", &text, format!("{:?}", m.custom_combo_colors), format!("{:?}", st.custom_combo_colors));
+            }
+            if let Ok(Ok(m)) = guarded(|| rosu_map::from_str::<Colors>(&text)) {
+                chk(out, "Colors", &text, format!("{:?}", m.custom_combo_colors), format!("{:?}", st.custom_combo_colors));
+            }
+            // Events, TimingPoints, HitObjects: whether the record arrived (through the result)
+            let text = mk("Events", "0,0,\"bg.jpg\",0,0");
+            let line = format!("{d}0,0,\"bg.jpg\",0,0{tl}");
+            let mut st = Events::default();
+            let _ = Events::parse_events(&mut st, &line);
+            if let Ok(Ok(m)) = guarded(|| rosu_map::from_str::<Beatmap>(&text)) {
+                chk(out, "Beatmap", &text, format!("{:?}", m.background_file), format!("{:?}", st.background_file));
+            }
+            if let Ok(Ok(m)) = guarded(|| rosu_map::from_str::<Events>(&text)) {
+                chk(out, "Events", &text, format!("{:?}", m.background_file), format!("{:?}", st.background_file));
+            }
+            let text = mk("TimingPoints", "100,300,4,1,0,50,1,0");
+            let plain = "osu file format v14\n\n[TimingPoints]\n";
+            let want_tp = {
+                let undecorated_ok = rosu_map::from_str::<TimingPoints>(&mk("TimingPoints", "100,300,4,1,0,50,1,0").replace(d, "")).map(|m| m.control_points.timing_points.len()).unwrap_or(0);
+                let _ = plain;
+                undecorated_ok
+            };
+            // the number parser trims the first field, so the decorated line is accepted iff the
+            // decoration is white space the parser trims; `_` is not
+            let accepted = !d.contains('_');
+            let want = if accepted { want_tp } else { 0 };
+            if let Ok(Ok(m)) = guarded(|| rosu_map::from_str::<Beatmap>(&text)) {
+                chk(out, "Beatmap", &text, format!("{}", m.control_points.timing_points.len()), format!("{want}"));
+            }
+            if let Ok(Ok(m)) = guarded(|| rosu_map::from_str::<TimingPoints>(&text)) {
+                chk(out, "TimingPoints", &text, format!("{}", m.control_points.timing_points.len()), format!("{want}"));
+            }
+            let text = mk("HitObjects", "256,192,1000,1,0,0:0:0:0:");
+            let want = if accepted { 1 } else { 0 };
+            if let Ok(Ok(m)) = guarded(|| rosu_map::from_str::<Beatmap>(&text)) {
+                chk(out, "Beatmap", &text, format!("{}", m.hit_objects.len()), format!("{want}"));
+            }
+            if let Ok(Ok(m)) = guarded(|| rosu_map::from_str::<HitObjects>(&text)) {
+                chk(out, "HitObjects", &text, format!("{}", m.hit_objects.len()), format!("{want}"));
+            }
+        }
+    }
+}
+
 pub fn generate(tier: &str, seed: u64, out: &mut Out) {
     let thorough = tier == "thorough";
     let mut r = Rng::new(seed ^ 0xC05);
@@ -682,6 +796,10 @@ pub fn generate(tier: &str, seed: u64, out: &mut Out) {
         cx.file(&f, r.below(4), if valid { "random-valid" } else { "random-malformed" }, true, k % 3 == 0);
         cx.metamorphic(&f, &mut r);
     }
+    // the REAL decoders (which may override the skip rule): a record in front of which a line
+    // decoration is written must have, through `from_str::<T>`, exactly the effect the public
+    // parse function of its section has on that very line
+    real_decoder_routing(cx.out);
     // metamorphic checks over short exhaustive files as well
     let n = core.len();
     let mlen = if thorough { 4 } else { 3 };
